@@ -17,7 +17,16 @@ import (
 // one; doubles by Go `==`.
 // ---------------------------------------------------------------------------------------------------------
 
-type spec struct{ s *idlgen.Schema }
+// shared: op ES — struct-typed container elements with identical descriptions are ONE object on both sides
+type spec struct {
+	s      *idlgen.Schema
+	shared bool
+}
+
+// sharedElem mirrors the driver's / the model's sharing rule.
+func sharedElem(et *idlgen.RType, a, b *values.Value) bool {
+	return et.Kind == idlgen.RStruct && !a.IsNil() && !b.IsNil() && a.String() == b.String()
+}
 
 func isNil(v *values.Value) bool { return v.IsNil() }
 
@@ -121,6 +130,9 @@ func (c *spec) valEq(t *idlgen.RType, a, b *values.Value) bool {
 			return false
 		}
 		for i := 0; i < lenOf(a); i++ {
+			if c.shared && sharedElem(t.Elem, a.E[i], b.E[i]) {
+				continue
+			}
 			if !c.valEq(t.Elem, a.E[i], b.E[i]) {
 				return false
 			}
@@ -150,7 +162,13 @@ func (c *spec) valEq(t *idlgen.RType, a, b *values.Value) bool {
 		}
 		for i := 0; i < a.NPairs(); i++ {
 			w := index(b, a.Key(i))
-			if w == nil || !c.valEq(t.Elem, a.Val(i), w) {
+			if w == nil {
+				return false
+			}
+			if c.shared && sharedElem(t.Elem, a.Val(i), w) {
+				continue
+			}
+			if !c.valEq(t.Elem, a.Val(i), w) {
 				return false
 			}
 		}
@@ -194,8 +212,9 @@ const (
 )
 
 type quirk struct {
-	s *idlgen.Schema
-	d defects
+	s      *idlgen.Schema
+	d      defects
+	shared bool
 }
 
 func (q *quirk) eq(t *idlgen.RType, a, b *values.Value) bool {
@@ -216,6 +235,9 @@ func (q *quirk) eq(t *idlgen.RType, a, b *values.Value) bool {
 			return false
 		}
 		for i := 0; i < lenOf(a); i++ {
+			if q.shared && sharedElem(t.Elem, a.E[i], b.E[i]) {
+				continue
+			}
 			if !q.eq(t.Elem, a.E[i], b.E[i]) {
 				return false
 			}
@@ -243,6 +265,8 @@ func (q *quirk) eq(t *idlgen.RType, a, b *values.Value) bool {
 					return false
 				}
 				w = idlgen.ZeroOf(t.Elem)
+			} else if q.shared && t.Key.Kind != idlgen.RStruct && sharedElem(t.Elem, a.Val(i), w) {
+				continue
 			}
 			if !q.eq(t.Elem, a.Val(i), w) {
 				return false
@@ -267,8 +291,8 @@ func (q *quirk) field(f *idlgen.SField, a, b *values.Value) bool {
 }
 
 // classify: which known defects make `got` (the implementation's answer) explainable? nil = not explainable.
-func classify(s *idlgen.Schema, eval func(eq func(*idlgen.RType, *values.Value, *values.Value) bool) bool, got bool) []string {
-	all := &quirk{s, allDefects}
+func classify(s *idlgen.Schema, shared bool, eval func(eq func(*idlgen.RType, *values.Value, *values.Value) bool) bool, got bool) []string {
+	all := &quirk{s, allDefects, shared}
 	if eval(all.eq) != got {
 		return nil
 	}
@@ -286,7 +310,7 @@ func classify(s *idlgen.Schema, eval func(eq func(*idlgen.RType, *values.Value, 
 		case 2:
 			d.optBinary = false
 		}
-		if eval((&quirk{s, d}).eq) != got {
+		if eval((&quirk{s, d, shared}).eq) != got {
 			out = append(out, k)
 		}
 	}
